@@ -57,6 +57,9 @@ type Machine struct {
 	foldable  map[*ssa.BasicBlock]bool
 	spec      int
 	folds     int
+	rtypes    map[string]*rtypeV
+	rtypeT    types.Type
+	keySeq    int
 }
 
 type inputRec struct {
@@ -498,6 +501,9 @@ func (m *Machine) prepareCall(fr *frame, call *ssa.CallCommon) (fn value, args [
 		}
 		if bh, ok := recv.v.(*blackhole); ok {
 			fn = &intrinsicFn{name: "blackhole." + call.Method.Name(), f: bh.method(call.Method)}
+			args = append(args, recv.v)
+		} else if _, ok := recv.v.(*rtypeV); ok {
+			fn = &intrinsicFn{name: "reflect.Type." + call.Method.Name(), f: m.rtypeMethod(call.Method.Name())}
 			args = append(args, recv.v)
 		} else {
 			f := m.lookupMethod(recv.t, call.Method)
